@@ -7,6 +7,7 @@ open Drv Hs
 structure St where
   s : Sys := Sys.init false false false false
   cfg : List Bool := [false, false, false, false]
+  forged : Bool := false      -- a forged packet was injected: the two-honest-endpoints predicates no longer apply
   deriving Inhabited
 
 def b (v : Bool) : String := if v then "1" else "0"
@@ -72,7 +73,7 @@ def step (st : St) (op impl : List String) : St × String × Option String :=
   match op with
   | ["new", ilA, zcA, ilB, zcB] =>
     let s := Sys.init (ilA == "1") (zcA == "1") (ilB == "1") (zcB == "1")
-    ({ s := s, cfg := [ilA == "1", zcA == "1", ilB == "1", zcB == "1"] }, s!"{dump s.a} | {dump s.b}", none)
+    ({ s := s, cfg := [ilA == "1", zcA == "1", ilB == "1", zcB == "1"], forged := false }, s!"{dump s.a} | {dump s.b}", none)
   | ["start", x] =>
     let x := side x
     let n := (st.s.hist x).size
@@ -85,8 +86,39 @@ def step (st : St) (op impl : List String) : St × String × Option String :=
     | some p =>
       let n := (st.s.hist (!x)).size
       let s := st.s.step (.deliver x (parseNat! i))
-      let v := predDump st.cfg (!x) ((impl.dropWhile (· != "|")).drop 1)
+      let v := if impl == ["PANIC"] then some "[C03,C04] a handshake packet made the association panic"
+               else if st.forged then none else predDump st.cfg (!x) ((impl.dropWhile (· != "|")).drop 1)
       ({ st with s := s }, s!"{pktStr p} => {outStr ((s.hist (!x)).toList.drop n)} | {dump (s.ep (!x))}", orElse v (wirePred ((impl.dropWhile (· != "=>")).drop 1)))
+  | "forge" :: y :: kind :: args =>
+    -- a packet from outside the honest run: the model's handler is applied directly (not an `Op` of `Sys`; the theorems of
+    -- C04 / C13 / C17 are about honest pairs, the correspondence and the predicates below cover the hostile input)
+    let y := side y
+    let types (s : String) : List Nat := if s == "none" || s == "empty" then [] else (s.splitOn ",").filterMap (·.toNat?)
+    let zc (s : String) : Option Nat := if s == "none" then none else s.toNat?
+    let e0 := st.s.ep y
+    let msg : Option Msg := match kind, args with
+      | "init", [t, z] => some (.init (types t) (zc z))
+      | "initack", [t, z] => some (.initAck (types t) (zc z) 7)
+      | "cookieecho", [w] => some (.cookieEcho (if w == "own" && e0.hasCookie then e0.id else 999))
+      | "cookieack", [] => some .cookieAck
+      | _, _ => none
+    match msg with
+    | none => (st, "bad-op", none)
+    | some m =>
+      let (e1, ms) := handle e0 { msg := m, zeroCk := false }
+      let (e2, o) := flush e1 ms
+      let s := st.s.put y e2 o
+      let toks := (impl.dropWhile (· != "|")).drop 1
+      let has (k : String) := toks.contains k
+      let v : Option String :=
+        if impl == ["PANIC"] then some "[C03,C04] a handshake chunk that no honest peer sends made the association panic"
+        else match kind, args with
+          | "init", [t, _] =>
+            if (t == "none" || t == "empty") && e0.st != stEstablished && (has "pil=1" || has "pfwd=1" || has "pifwd=1") then
+              some "[C17,C04,C03] after an INIT that lists no supported extensions the endpoint still treats extensions as offered by the peer"
+            else none
+          | _, _ => none
+      ({ st with s := s, forged := true }, s!"{outStr o} | {dump e2}", orElse v (wirePred impl))
   | ["t1", x, kind] =>
     let x := side x
     let n := (st.s.hist x).size
